@@ -299,20 +299,77 @@ class Repeat(Sym):
 
 
 class SymList(Sym):
-    """a list of symbolic length n >= 0 whose elements are objects of one class; field f of element i is the
-    uninterpreted function application funcs[f](i).  Read-only: length, truth, indexing, and iteration under an
-    inductive loop invariant."""
-    __slots__ = ('name', 'n', 'cls', 'funcs', 'pytype')
+    """a list of symbolic length whose elements are objects of one class.
+    Version 0: field f of element i is the uninterpreted function application funcs[f](i), length ns[0].
+    Every mutation (append / store at an index) adds one overlay (index, object) and one length: version v sees
+    over[:v] and has length ns[v].  Field f of element i at version v is the If-chain over the overlays."""
+    __slots__ = ('name', 'ns', 'cls', 'funcs', 'pytype', 'over', 'origin', 'tag')
 
     def __init__(self, name, n, cls, funcs):
         self.name = name
-        self.n = n
+        self.ns = [n]
         self.cls = cls
         self.funcs = funcs
         self.pytype = list
+        self.over = []
+        self.origin = None
+        self.tag = None
+
+    @property
+    def n(self):
+        return self.ns[-1]
+
+    @property
+    def version(self):
+        return len(self.over)
+
+    def snapshot(self):
+        c = SymList(self.name, self.ns[0], self.cls, self.funcs)
+        c.ns = list(self.ns)
+        c.over = list(self.over)
+        c.origin = self.origin or self
+        return c
+
+    def field(self, f, zi, v=None):
+        """z3 expression of field f of element zi at version v"""
+        import z3
+        fn, kind = self.funcs[f]
+        e = fn(zi)
+        for idx, obj in self.over[:self.version if v is None else v]:
+            e = z3.If(zi == idx, _field_z3(obj.fields[f], kind), e)
+        return e
 
     def __repr__(self):
-        return f"SymList({self.name})"
+        return f"SymList({self.name}@{self.version})"
+
+
+def _field_z3(val, kind):
+    import z3
+    if kind == 'str':
+        return str_z3(val)
+    if kind == 'int':
+        return to_zint(val)
+    return val.z if isinstance(val, SBool) else z3.BoolVal(bool(val))
+
+
+class ListView:
+    """a SymList at one of its versions (what a fold ranges over)"""
+    __slots__ = ('lst', 'v')
+
+    def __init__(self, lst, v=None):
+        self.lst = lst
+        self.v = lst.version if v is None else v
+
+    @property
+    def n(self):
+        return self.lst.ns[self.v]
+
+    @property
+    def name(self):
+        return self.lst.name if self.v == 0 else f"{self.lst.name}@{self.v}"
+
+    def field(self, f, zi):
+        return self.lst.field(f, zi, self.v)
 
 
 class EnumSym(Sym):
@@ -322,6 +379,33 @@ class EnumSym(Sym):
     def __init__(self, lst, start=0):
         self.lst = lst
         self.start = start
+
+
+class SymRange(Sym):
+    """range(lo, hi) with symbolic bounds (step 1): only meaningful to generator expressions"""
+    __slots__ = ('lo', 'hi')
+
+    def __init__(self, lo, hi):
+        self.lo = lo
+        self.hi = hi
+
+
+class MapSym(Sym):
+    """generator expression over a list / range of symbolic length: element j yields the z3 expression `expr`
+    (in which the bound index constant `j` occurs); kind is 'str' | 'int' | 'bool'"""
+    __slots__ = ('src', 'j', 'expr', 'kind', 'lo', 'hi')
+
+    def __init__(self, src, j, expr, kind, lo, hi):
+        self.src = src          # ListView or None (range)
+        self.j = j
+        self.expr = expr
+        self.kind = kind
+        self.lo = lo
+        self.hi = hi
+
+    def at(self, zi):
+        import z3
+        return z3.substitute(self.expr, (self.j, zi))
 
 
 class SFloat(Sym):
